@@ -271,7 +271,7 @@ def ctor_runs(tier, seed):
 def sched_runs(tier, seed):
     if tier == "thorough":
         return [["core", "--family", "reg4", "--seed", str(seed), "--cases", "1500", "--ops", "50", "--profile", "single-sched"]]
-    return [["core", "--family", "reg4", "--seed", str(seed), "--cases", "260", "--ops", "40", "--profile", "single-sched"]]
+    return [["core", "--family", "reg4", "--seed", str(seed), "--cases", "520", "--ops", "40", "--profile", "single-sched"]]
 
 
 def core_runs(tier, seed, profile="multi"):
